@@ -1288,6 +1288,14 @@ func (r *run) applyContractSig(fr *frame, cur *node, callee string, fc *contract
 	after := fr.syntheticAfter(cur)
 	// the callee may allocate: the allocation counter after the call is some value not below the one before
 	// (objects the callee hands back as fresh lie in between and differ from everything allocated later)
+	// the callee's contract may be written for the other arithmetic mode (mathematical integers against
+	// bit-vectors): its preconditions must still be evaluable here; a postcondition or ghost update that is
+	// not (sort mismatch in a specification function) is dropped, which only weakens what the caller knows
+	calleeMode := fc.Mode
+	if calleeMode == "" {
+		calleeMode = r.E.Mode
+	}
+	crossMode := (calleeMode == "int") != (r.mode == "int")
 	advances := !(fc.Pure && len(fc.Ensures) == 0)
 	if advances {
 		na := c.Fresh("$alloc.call", smt.Int)
@@ -1315,8 +1323,26 @@ func (r *run) applyContractSig(fr *frame, cur *node, callee string, fc *contract
 				vals = append(vals, nil)
 				continue
 			}
-			tv := en2.eval(s.Expr, gv.T)
-			vals = append(vals, r.scalarOf(en2.coerceTo(tv, gv.T).V, gv.T))
+			var val *smt.Term
+			func() {
+				defer func() {
+					if x := recover(); x != nil {
+						if _, isUnsup := x.(unsupported); isUnsup && crossMode {
+							// the update is written for the callee's arithmetic mode: the ghost becomes unknown
+							gs := gv.Sort
+							if gs == nil {
+								gs = r.scalarSort(gv.T)
+							}
+							val = c.Fresh("G$"+s.LetNames[0]+".othermode", gs)
+							return
+						}
+						panic(x)
+					}
+				}()
+				tv := en2.eval(s.Expr, gv.T)
+				val = r.scalarOf(en2.coerceTo(tv, gv.T).V, gv.T)
+			}()
+			vals = append(vals, val)
 		}
 		for i, s := range fc.Sets {
 			if vals[i] != nil {
@@ -1386,7 +1412,9 @@ func (r *run) applyContractSig(fr *frame, cur *node, callee string, fc *contract
 				}
 			}
 			r.curTag = normTag(in.tag)
-			r.assume(c.And(after.alive, in.cond), ien.evalBool(cl.Expr))
+			if post, ok := r.evalPostOfOtherMode(ien, cl, crossMode, callee); ok {
+				r.assume(c.And(after.alive, in.cond), post)
+			}
 			r.curTag = ""
 		}
 	}
@@ -1412,6 +1440,28 @@ func (r *run) applyContractSig(fr *frame, cur *node, callee string, fc *contract
 		}
 	}
 	return res, after
+}
+
+// evalPostOfOtherMode evaluates one postcondition of a callee; when the callee's contract is written for the
+// other arithmetic mode and the clause cannot be expressed in this one, the clause is skipped (ok == false)
+// and the omission is reported with the assumptions of the run.
+func (r *run) evalPostOfOtherMode(en *env, cl *contract.Clause, crossMode bool, callee string) (post *smt.Term, ok bool) {
+	if !crossMode {
+		return en.evalBool(cl.Expr), true
+	}
+	defer func() {
+		if x := recover(); x != nil {
+			if _, isUnsup := x.(unsupported); isUnsup {
+				if r.assumedContracts != nil {
+					r.assumedContracts["postcondition of "+callee+" written for the other arithmetic mode, not used here: "+cl.Text] = true
+				}
+				post, ok = nil, false
+				return
+			}
+			panic(x)
+		}
+	}()
+	return en.evalBool(cl.Expr), true
 }
 
 func bindResults(en *env, fc *contract.Func, results *types.Tuple, res Value) {
